@@ -76,6 +76,7 @@ func nontrivial(p *lp.Program) (bool, []string) {
 
 func cfg() lp.Cfg {
 	c := lp.DefaultCfg()
+	c.Binary = lp.BinaryBuild // the same property in the binary_log build: the generator then also draws what only CBOR can carry
 	c.UniqueKeys = true
 	c.MaxOps = 4
 	c.MaxDepth = 2
